@@ -65,7 +65,7 @@ func ConcurrentPackage(rng *core.Rng, name string, n int) *ConcPackage {
 }
 
 // NumConcTemplates is the number of template families.
-const NumConcTemplates = 21
+const NumConcTemplates = 22
 
 // ConcurrentPackageFrom: with first >= 0 the i-th case uses template (first+i) mod NumConcTemplates
 // (a sweep over packages then covers every template), with first < 0 templates are drawn at random.
@@ -418,6 +418,11 @@ func worker(mu *sync.Mutex, c *sync.Cond, wg *sync.WaitGroup, p *uint64, d uint6
 			tmpl, det = "wait-timeout-poll-bounded", true
 			tmo := []int{0, 0, 1, 5}[rng.Intn(4)]
 			body = fmt.Sprintf("\tmu := new(sync.Mutex)\n\tcond := sync.NewCond(mu)\n\tvar ready bool = false\n\tvar val uint64 = 0\n\tmu.Lock()\n\tgo func() {\n\t\tmu.Lock()\n\t\tval = %d\n\t\tready = true\n\t\tmu.Unlock()\n\t}()\n\tvar polls uint64 = 0\n\tfor !ready {\n\t\tmachine.WaitTimeout(cond, %d)\n\t\tpolls = polls + 1\n\t\tif polls > 5000000 {\n\t\t\tbreak\n\t\t}\n\t}\n\tr := val\n\tmu.Unlock()\n\tif polls > 5000000 {\n\t\treturn 999999\n\t}\n\treturn r\n", 10+c1, tmo)
+		case 21:
+			// a timed waiter queued behind a plain waiter on the same Cond, and nobody signals before the timeout:
+			// the expiry must get the timed waiter going again (the plain waiter re-checks its predicate and waits on)
+			tmpl, det = "timed-waiter-behind-plain-waiter", true
+			body = fmt.Sprintf("\tmu := new(sync.Mutex)\n\tcond := sync.NewCond(mu)\n\tvar stop bool = false\n\tvar served uint64 = 0\n\twg := new(sync.WaitGroup)\n\twg.Add(1)\n\tgo func() {\n\t\tmu.Lock()\n\t\tfor !stop {\n\t\t\tcond.Wait()\n\t\t}\n\t\tserved = served + %d\n\t\tmu.Unlock()\n\t\twg.Done()\n\t}()\n\tmachine.Sleep(%d)\n\tmu.Lock()\n\tmachine.WaitTimeout(cond, %d)\n\tstop = true\n\tcond.Broadcast()\n\tmu.Unlock()\n\twg.Wait()\n\tmu.Lock()\n\tr := served\n\tmu.Unlock()\n\treturn r\n", 10+c2, 1000000*(1+rng.Intn(4)), 5+rng.Intn(20))
 		case 10:
 			// nested goroutines and a parameter captured; two locks taken in a fixed order
 			tmpl, det = "nested-spawn-two-locks", true
